@@ -805,7 +805,7 @@ int main(int argc, char *argv[])
    {
       cpd.filename = cfg_file;
 
-      if (!load_option_file(cpd.filename.c_str()))
+      if (!load_option_file(cfg_file.c_str()))
       {
          usage_error("Unable to load the config file");
          return(EX_IOERR);
